@@ -509,13 +509,13 @@ class StorageRunner:
         if self.probe:
             self.probe(self, t, 'stored')
         s.tpc_vote(t)
+        if self.probe:
+            self.probe(self, t, 'voted')
         if abort_at is not None:
             self.abort(t)
             self.labels.add('abort-after-vote')
             return
         got = []
-        if self.probe:
-            self.probe(self, t, 'voted')
         self.in_finish = True
         self.pending = Txn(None, ' ', user, desc, ext, written, 'undo' if is_undo else 'store')
 
